@@ -38,6 +38,26 @@ def generate(rng, tier):
             recs = rand_records(rng, regime, nseg=rng.choice([2, 3, 4, 6]), span=12)
             cases.append({"regime": regime, "recs": recs, "uri": rng.choice(URIS),
                           "modality": rng.choice([None, "speaker"]), "sup": _support(rng, regime, recs)})
+    # collision families: an inner segment [u, e], an outer one containing it (same track name, other label), and a
+    # support that cuts the outer one down to exactly [u, e] while leaving the inner one whole - every position of the
+    # support piece relative to the inner segment, both insertion orders, str and int track names, a second piece
+    import itertools
+    unit = {"K0": 1, "K4": 5, "K1": 1}
+    for regime in ("K0", "K4", "K1"):
+        w = unit[regime]
+        for (u, e), (da, db), (pa, pb), tr, order, second in itertools.product(
+                [(3, 5), (4, 8)], [(3, 5), (0, 2), (2, 0), (1, 1)], [(0, 0), (0, 1), (1, 0), (0, 4)], ["_", 0, "0"],
+                (0, 1), (False, True)):
+            inner = [[u * w, e * w], tr, "b"]
+            outer = [[(u - da) * w, (e + db) * w], tr, "a"]
+            recs = [outer, inner] if order == 0 else [inner, outer]
+            pieces = [[(u - pa) * w, (e + pb) * w]]
+            if second:
+                pieces.append([(e + pb + 2) * w, (e + pb + 4) * w])
+                recs.append([[(e + pb + 2) * w, (e + pb + 3) * w], tr, "b"])
+            if tier != "thorough" and (da + db + pa + pb) % 2 and regime != "K0":
+                continue
+            cases.append({"regime": regime, "recs": recs, "uri": "u1", "modality": None, "sup": ["tl", pieces]})
     return {"cases": cases, "meta": {"exhaustive": False,
                                      "sizes": gen.stats(cases, {"n_records": lambda c: len(c["recs"]),
                                                                 "sup_kind": lambda c: c["sup"][0]})}}
